@@ -184,7 +184,19 @@ func canon(rv reflect.Value) string {
 }
 
 // RunReplay is called from the generated TestVerifReplay of each harness package.
+// extra: harnesses registered by optional files (zz_verif_opt_*.go) from init().
+var extra = map[string]any{}
+
+// Register adds a harness to the replay table of its package (used by optional
+// white-box harness files, which may be left out when they do not compile).
+func Register(name string, h any) { extra[name] = h }
+
 func RunReplay(t *testing.T, harnesses map[string]any) {
+	for k, v := range extra {
+		if _, ok := harnesses[k]; !ok {
+			harnesses[k] = v
+		}
+	}
 	in, out := os.Getenv("VERIFSYM_CASES"), os.Getenv("VERIFSYM_RESULT")
 	if in == "" {
 		t.Skip("no VERIFSYM_CASES")
